@@ -71,6 +71,12 @@ func memberSpec(m c01Member) (Spec, cfg.Config, error) {
 		// (m00, c01, x02, a03, ...), so "order of the patterns" and "lexical order of the paths" disagree
 		s.Files = append(s.Files, File{Name: fmt.Sprintf("%c%02d.yaml", "mcxatb"[i%6], i), Content: text})
 	}
+	if len(s.Files) == 2 && m.Style.Flow {
+		// one pattern with the wildcard in the directory part: Glob lists conf/ before conf.d/, the documented order is
+		// the lexical order of the paths (conf.d/m.yaml < conf/m.yaml)
+		s.Files[0].Name, s.Files[1].Name = "conf.d/m.yaml", "conf/m.yaml"
+		s.Patterns = []string{"conf*/*.yaml"}
+	}
 	s.Flags = sut.Flags{Stub: m.Stub, IgnoreMissingParams: m.IgnoreP, IgnoreMissingServices: m.IgnoreS}
 	return s, ref.Merge(m.Files...), nil
 }
@@ -448,6 +454,21 @@ func TestC01(t *testing.T) {
 		}
 		members = append(members, c01Member{Files: []cfg.Config{c}, Stub: v&4 != 0, IgnoreP: true, IgnoreS: true,
 			Labels: []string{"accepted-under-ignore-flags", fmt.Sprintf("declared-params:%d", len(c.Params)), fmt.Sprintf("stub:%v", v&4 != 0)}})
+	}
+	for v := 0; v < 4; v++ {
+		idx++
+		if !ev.Mine(idx) {
+			continue
+		}
+		// nothing but decorators (and perhaps one parameter): services and parameters arrive at run time
+		c := cfg.Config{Meta: cfg.Meta{Pkg: sp("app")}, Decorators: []cfg.Decorator{
+			{Tag: "t", Fn: "fx/lib.Decorate", Args: []cfg.Val{cfg.Str("@late"), cfg.Str("%gone%"), cfg.Str("!tagged u"), cfg.Str("$gontainer"), cfg.Str("!value fx/lib.GlobalObj")}},
+			{Tag: "u", Fn: "fx/lib.Decorate"}}}
+		if v&1 != 0 {
+			c.Params = []cfg.Param{{Name: "only", Val: cfg.Int(1)}}
+		}
+		members = append(members, c01Member{Files: []cfg.Config{c}, Stub: v&2 != 0, IgnoreP: true, IgnoreS: true,
+			Labels: []string{"accepted-under-ignore-flags", "no-services-declared", fmt.Sprintf("stub:%v", v&2 != 0)}})
 	}
 	for len(members) > 0 {
 		n := 32
